@@ -559,13 +559,44 @@ def r3(p, rep, lockinfo):
                             g = c.methods.get(v.func.attr)
                             if g is not None:
                                 rets = [r.value for r in ast.walk(g.node) if isinstance(r, ast.Return) and r.value is not None]
-                                ok = all((attr_chain(r) or [None, None])[1] in tl_attrs for r in rets) and bool(rets)
+                                ok = all(_tl_rooted(p, g, r, self_name(g), tl_attrs) for r in rets) and bool(rets)
                         elif isinstance(v, ast.Attribute):
                             ch = attr_chain(v)
                             if ch and ch[0] == s:
                                 ok = len(ch) >= 2 and ch[1] in tl_attrs
                         if ok is not None:
                             rep.add("C10.R3", f"{c.qualname}.{name}:alias({local})", f"{c.module.rel}:{n.lineno}", ok, f"{local} = {norm(v)} then {norm(n.func)}(): " + ("thread-local storage" if ok else "the mutated list is shared between threads"))
+
+
+def _tl_rooted(p, g, e, s, tl_attrs, depth=0):
+    """does expression e (inside method / function g whose self is `s`) denote storage hanging off a
+    threading.local attribute: `self.<tl>.x`, a local bound to that, or `helper(self.<tl>)` where the helper returns
+    attributes of its parameter"""
+    if depth > 3:
+        return False
+    if isinstance(e, ast.Attribute):
+        ch = attr_chain(e)
+        if ch and ch[0] == s and len(ch) >= 2 and ch[1] in tl_attrs:
+            return True
+        if ch and ch[0] != s and len(ch) >= 2:
+            # `tl = self._thread_local` ... `tl.stack`
+            ds = [a.value for a in walk_no_nested(g.node) if isinstance(a, ast.Assign) and any(isinstance(t, ast.Name) and t.id == ch[0] for t in a.targets)]
+            return bool(ds) and all(isinstance(d, ast.Attribute) and (attr_chain(d) or [None])[0] == s and len(attr_chain(d)) == 2 and attr_chain(d)[1] in tl_attrs for d in ds)
+        return False
+    if isinstance(e, ast.Name):
+        ds = [a.value for a in walk_no_nested(g.node) if isinstance(a, ast.Assign) and any(isinstance(t, ast.Name) and t.id == e.id for t in a.targets)]
+        return bool(ds) and all(_tl_rooted(p, g, d, s, tl_attrs, depth + 1) for d in ds)
+    if isinstance(e, ast.Call):
+        r = resolve_callee(p, e, g.module)
+        if r and r[0] == "func":
+            h = r[1]
+            for i, a in enumerate(e.args):
+                if i < len(h.params) and _tl_rooted(p, g, a, s, tl_attrs, depth + 1):
+                    q = h.params[i]
+                    rets = [x.value for x in walk_no_nested(h.node) if isinstance(x, ast.Return) and x.value is not None]
+                    if rets and all((attr_chain(x) or [None])[0] == q for x in rets):
+                        return True
+    return False
 
 
 def r4(p, rep):
@@ -758,7 +789,7 @@ def _establishes(p, g, names, depth=0):
 
 
 def r7(p, rep):
-    rep.rule("C10.R7", "an attribute of a threading.local object is set up in the very function (thread) that reads it: other threads start with an empty object", "definite-assignment dataflow on `<thread-local>.<attr>` (hasattr guard or assignment on every path to a read)", floor=4)
+    rep.rule("C10.R7", "an attribute of a threading.local object is set up in the very function (thread) that reads it: other threads start with an empty object", "definite-assignment dataflow on `<thread-local>.<attr>` (hasattr guard or assignment on every path to a read)", floor=2)
     from sa.cfg import CFG, decompose
 
     # thread-local storages: module-level names and self attributes initialised as threading.local()
